@@ -185,7 +185,7 @@ theorem C07_close_conserves (so : ScriptOf) (a : Account) (fe : FeeExpr) (ws : B
 /-! ## deposits -/
 
 /-- **C07_deposit_conserves**: an accepted deposit spends the wallet's inputs plus the account input, all outpoints
-distinct (so the account outpoint exactly once); records `old + amount ≤ max`, version not lowered; the recorded
+distinct (so the account outpoint exactly once); records `MinAccountValue ≤ old + amount ≤ max`, version not lowered; the recorded
 outpoint designates an output with the new account script; no dust; total fee `Σ inputs − Σ outputs ≥ 253·W/1000`
 where `Σ inputs = old + Σ wallet inputs`.  Under the ASSUMPTION `FundOk` on lnd's `FundPsbt` (template output
 unchanged + optional change, inputs = template + change + lndFee): the outputs are exactly the re-created account
@@ -204,7 +204,8 @@ theorem C07_deposit_conserves (so : ScriptOf) (a : Account) (amount rate : Int) 
       (deposit so a amount rate best eh nv maxValue fd f).trace = pre ++ [.storeWrite acct', .publish tx] ∧
       pre.length ≤ 1 ∧ (∀ e ∈ pre, e.isModify = true) ∧
       tx.inputs.Perm (fdv.inputs ++ [a.txIn so]) ∧ (tx.inputs.map (·.prev)).Nodup ∧
-      acct'.value = a.value + amount ∧ acct'.value ≤ maxV ∧ acct'.version = max a.version nv ∧
+      acct'.value = a.value + amount ∧ acct'.value ≤ maxV ∧ (MinAccountValue : Int) ≤ acct'.value ∧
+      acct'.version = max a.version nv ∧
       acct'.state = StatePendingUpdate ∧ acct'.batchCtr = a.batchCtr + 1 ∧
       acct'.outPoint = ⟨selfHash, idx⟩ ∧ (∃ o, tx.outputs[idx]? = some o ∧ o.script = (acct'.output so).script) ∧
       (∀ o ∈ tx.outputs, isDustOutput o = false ∧ 0 ≤ o.value) ∧
@@ -214,7 +215,7 @@ theorem C07_deposit_conserves (so : ScriptOf) (a : Account) (amount rate : Int) 
         tx.outputs.Perm (acct'.output so :: change) ∧
         inT - sumValues tx.outputs = fee + lndFee ∧
         acct'.value = a.value + ((fdv.inputs.map (·.utxoValue)).sum - sumValues change) - (fee + lndFee)) := by
-  obtain ⟨hs, hv, maxV, ne, tx0, hmax, hle, hne, htx0, heq⟩ := deposit_inv h
+  obtain ⟨hs, hv, maxV, ne, tx0, hmax, hle, hge, hne, htx0, heq⟩ := deposit_inv h
   rw [heq] at h ⊢
   obtain ⟨mods', lock, pre, hloc, hlock, hsan, htx, hacct, htrace, hpre1, hpre2⟩ := spendAccount_ok h
   obtain ⟨hnew, hval, hctr, hexp, hver, hst, hop⟩ := cnao_fields so a (a.value + amount) ne nv
@@ -254,9 +255,11 @@ theorem C07_deposit_conserves (so : ScriptOf) (a : Account) (amount rate : Int) 
       { applyMods a ms with state := StatePendingUpdate, outPoint := ⟨selfHash, idx⟩, heightHint := best } := by
     rw [hnew]; simp [Account.output]
   refine ⟨maxV, fdv, fee, tx0, _, idx, pre, inT, w, hmax, hfd, hfee, hs, hv, optExpiry_window hne expiry_window, htx,
-    hacct, htrace, hpre1, hpre2, hpin, hnd, hval, ?_, hver, rfl, hctr, rfl, ?_, ?_, hinT, hfloor, ?_⟩
+    hacct, htrace, hpre1, hpre2, hpin, hnd, hval, ?_, ?_, hver, rfl, hctr, rfl, ?_, ?_, hinT, hfloor, ?_⟩
   · show (applyMods a ms).value ≤ maxV
     rw [hval]; exact hle
+  · show (MinAccountValue : Int) ≤ (applyMods a ms).value
+    rw [hval]; exact hge
   · rw [← hnewout]; exact locateScript_some hl
   · intro o ho; exact ⟨hdust o ho, (hrange o ho).1⟩
   · intro change lndFee hfo
@@ -306,7 +309,7 @@ theorem C07_refusals_no_effect (so : ScriptOf) (a : Account) (best : UInt32) (f 
     (∀ amount rate eh nv maxValue fd, (deposit so a amount rate best eh nv maxValue fd f).trace ≠ [] →
       a.state = StateOpen ∧ a.version ≤ nv ∧
       (eh ≠ 0 → best.toNat + 144 ≤ eh.toNat ∧ eh.toNat ≤ best.toNat + 52560) ∧
-      (∃ maxV, maxValue = some maxV ∧ a.value + amount ≤ maxV) ∧
+      (∃ maxV, maxValue = some maxV ∧ a.value + amount ≤ maxV) ∧ (MinAccountValue : Int) ≤ a.value + amount ∧
       ∃ ne tx, inputsForDeposit so a (createNewAccountOutput so a (a.value + amount) ne nv).1 amount
           (determineWitnessType a best) rate fd = .ok tx ∧
         (∀ o ∈ tx.outputs, isDustOutput o = false ∧ 0 ≤ o.value)) := by
@@ -341,11 +344,11 @@ theorem C07_refusals_no_effect (so : ScriptOf) (a : Account) (best : UInt32) (f 
       have hle' : sumValues (sortBy outLt outs) ≤ inT := hle
       omega
   · intro amount rate eh nv maxValue fd h
-    obtain ⟨hs, hv, maxV, ne, tx, hmax, hle, hne, htx, heq⟩ := deposit_trace_inv h
+    obtain ⟨hs, hv, maxV, ne, tx, hmax, hle, hge, hne, htx, heq⟩ := deposit_trace_inv h
     rw [heq] at h
     obtain ⟨_, _, lock, _, hsan, _⟩ := spendAccount_trace_prepared h
     obtain ⟨_, _, hrange, _, hdust, _⟩ := sanityCheck_ok hsan
-    exact ⟨hs, hv, optExpiry_window hne expiry_window, ⟨maxV, hmax, hle⟩, ne, tx, htx,
+    exact ⟨hs, hv, optExpiry_window hne expiry_window, ⟨maxV, hmax, hle⟩, hge, ne, tx, htx,
       fun o ho => ⟨hdust o ho, (hrange o ho).1⟩⟩
 
 /-! ## non-vacuity: concrete accepted operations (evaluated by the kernel) -/
